@@ -3,11 +3,23 @@
   trees of the declarative grammar (`Spec/Grammar.lean`: `PTree`).
 
   `Sem t root cur env` is the outcome of evaluating the tree `t` on the current node `cur`, in a document `root`, with
-  the variable bindings `env`.  It is written with `List.map`, `List.filterMap`, `List.flatMap`, `List.find?`, … only:
-  no helper of the evaluator model (`projectArray`, `flattenAndProjectArray`, `pruneArray`, `index`, `slice`, `field`,
-  `combineUnordered`, `widen`, …) occurs in it, and there is no node type of the Go parser in it either (no `INode`, no
-  `desugar`): the null rule of multi-select is a commented clause about the *text* ("written without a left operand and
-  with exactly one member").
+  the variable bindings `env`.  The core language (fields, indices, array slices, the five projections, multi-select,
+  pipes, boolean operators, ordering comparisons, `let`) is written with `List.map`, `List.filterMap`, `List.flatMap`,
+  `List.find?`, … only: none of the evaluator model's helpers for these constructs (`projectArray`,
+  `flattenAndProjectArray`, `pruneArray`, `index`, `field`, `combineUnordered`, `widen`, …) occurs in it, and `desugar`
+  does not either; the null rule of multi-select is a commented clause about the *text* ("written without a left operand
+  and with exactly one member").
+
+  Two things of the model / of the Go parser DO occur, beyond the list below (earlier versions of this comment said
+  they did not):
+    * `modelSlice` calls the model's `slice` / `sliceStep` with the parser's encoding of absent bounds
+      (`C12.encStart` / `C12.encStop`).  `sliceOf` uses it for *strings* (their slices are the subject of C12B), and for
+      arrays of more than `MaxInt` elements (no Go slice is that long); the slice of an array of a JSON document is the
+      Python walk `pyWalk`, without the model.
+    * `callSem` finds out WHICH builtin a name denotes by applying the parser's node constructor of the builtin table
+      (`Parser.ArgSpec`) to dummy arguments and matching the result against the node types `INode.sortBy`, `.maxBy`,
+      `.minBy`, `.groupBy`, `.call`, `.merge`, `.notNull`, `.zip`.  So node types of the Go parser are mentioned, as
+      tags of the builtin table only: no node is ever evaluated, `ieval` does not occur.
 
   What IS shared with the model, on purpose (each is the subject of its own property):
     * the value type `Val` / outcome type `Res`, `objInsert` (the constructor of objects: members listed by key),
@@ -16,9 +28,15 @@
       `Parser.lookupBuiltin` (which names are builtins and how they take their arguments);
     * number conversion and arithmetic: `toDecimal`, `Dec.less …`, `applyBinOp` for `+ - * / // %` and `==`/`!=` (C05, C20),
       `negateVal`, `isNumber`;
-    * builtin functions: `applyFn`, and `sortArrayBy`, `arrayMaxBy`, `arrayMinBy`, `groupBy`, `mapArray` (C02, C13);
+    * builtin functions: `applyFn`, and `sortArrayBy`, `arrayMaxBy`, `arrayMinBy`, `groupBy`, `mapArray`, `zipArgs`,
+      `zipRows` (C02, C13);
     * literal decoding: `parseJSONLiteral`, `parseStringLiteral`, `parseQuotedIdentifier` (C18, C11);
-    * slices of *strings* (C12B: `slice_string_spec`), and the Python walk `pyWalk` of `Spec/Slice.lean` for arrays.
+    * slices of *strings* (C12B: `slice_string_spec`) through `slice` / `sliceStep`, and the Python walk `pyWalk` of
+      `Spec/Slice.lean` for arrays.
+
+  Clauses of `Sem` that follow the Go program where a reader of the JMESPath specification might expect something else
+  are listed as theorems, each with the observed Go behaviour, in `Properties/C01E.lean` (section "Decisions"); the
+  relation to a semantics with the null rule of the specification (`SemSpec`) is `C01E.search_eq_SemSpec`.
 
   Arrays whose element order is unspecified (Go ranges over a map: tag `.enum`): the semantics follows the convention
   of the model.  The tag is propagated; selecting by position from such an array of two or more elements is `.nondet`;
@@ -154,7 +172,8 @@ def indexOf (cur : Val) (i : Int) : Res Val :=
     else .ok (xs.getD j.toNat .null)
   | _ => .ok .null
 
-/-- the slice of the model, with the parser's encoding of absent bounds (used for strings) -/
+/-- the slice of the MODEL (`slice` / `sliceStep`), with the parser's encoding of absent bounds; used by `sliceOf` for
+    strings, and for arrays longer than `MaxInt` (which no Go slice is) -/
 def modelSlice (v : Val) (a b : Option Int) (step : Int) : Res Val :=
   if step = 1 then slice v (C12.encStart 1 a) (C12.encStop 1 b)
   else sliceStep v (C12.encStart step a) (C12.encStop step b) step
